@@ -188,7 +188,7 @@ def r13_3(repo: Repo) -> RuleResult:
             if canon not in TEMP_MAKERS:
                 continue
             pm = pm or parents_map(f.node)
-            construct = "%s(...)" % canon
+            construct = "%s(...)#%d" % (canon, sum(1 for x in repo.calls_in(f) if repo.canonical(f.module, x.func) == canon and x.lineno < call.lineno))
             anc = ancestors(call, pm)
             ok = None
             # (a) context-managed
